@@ -741,7 +741,7 @@ class LegCharge:
             blockcharges = hdf5_loader.load(subpath + 'blockcharges')
             obj.slices = slices = np.zeros(obj.block_number + 1, dtype=np.intp)
             slices[:-1] = blockcharges[:, 0]
-            slices[-1] = blockcharges[-1, 1]
+            slices[1:] = blockcharges[:, 1]  # (all stop indices: also fine for a leg without blocks)
             obj.charges = np.asarray(blockcharges[:, 2:], dtype=QTYPE, order='C')
         elif format == 'flat':
             obj.block_number = obj.ind_len
